@@ -98,8 +98,7 @@ claim("C16",
       "Bounded model checking of the real parse_response on semi-concrete wire images: a response cut at every offset inside its head is an "
       "error (quick tier, two harnesses); thorough tier: a complete response returns status, success flag and exactly the body byte that "
       "followed the header block, and a body shorter than its Content-Length is an "
-      "error; a body shorter than the declared Content-Length is an error (defect found, repaired in 8e20dd1). Partial: one "
-      "header, bodies <= 1 byte in the quick tier; sockets, time-outs and hangs (tokio) are outside.",
+      "error (defect found, repaired in 8e20dd1). Partial: one header, bodies <= 1 byte; sockets, time-outs and hangs (tokio) are outside.",
       "format! in error paths is stubbed (message text irrelevant). Trusted: Kani's String/Vec models.",
       "DESIGN.md §4/C16")
 claim("C29",
